@@ -90,6 +90,7 @@ func plan(seed int64, tier string) []vrt.Case {
 	}
 	for i := 0; i < nConc; i++ {
 		add(fmt.Sprintf("concurrent-%d", i), params{Kind: "concurrent", Lo: i, N: 30})
+		add(fmt.Sprintf("interleave-%d", i), params{Kind: "interleave", Lo: i, N: 25})
 	}
 	add("golden", params{Kind: "golden"})
 	rangeID := func(r lzwork.Range) string {
@@ -383,6 +384,19 @@ func (c *ctx) modes(what string, in []byte, j uint64, stats bool, parts []int, m
 	}
 }
 
+// decodesTo: the reference decoder gets want back from stream.
+func decodesTo(stream, want []byte, crc bool) bool {
+	raw := stream
+	if crc {
+		if len(raw) < 2 {
+			return false
+		}
+		raw = raw[2:]
+	}
+	out, _, err := lzref.Decode(raw)
+	return err == nil && bytes.Equal(out, want)
+}
+
 func run(cs vrt.Case) vrt.Obs {
 	var p params
 	vrt.Params(cs, &p)
@@ -442,6 +456,60 @@ func run(cs vrt.Case) vrt.Obs {
 			}
 		})
 		o.Sample = map[string]any{"kind": "concurrent", "goroutines": 4, "inputs_per_goroutine": p.N}
+	case "interleave":
+		// two compressions and one decompression alive at the same time in one goroutine, fed in turns; before
+		// that the process has closed Readers twice (lzwork.Decompress does, as "defer Close()" code does): what one
+		// codec value did, or how it was closed, must not leak into another
+		r := vrt.Rand(p.Seed, "c07-interleave", p.Lo)
+		for i := 0; i < p.N; i++ {
+			sp1, sp2, sp3 := lzwork.RandomSpec(r), lzwork.RandomSpec(r), lzwork.RandomSpec(r)
+			sp1.Size, sp2.Size, sp3.Size = sp1.Size%20001, sp2.Size%20001, sp3.Size%20001
+			in1, in2, in3 := sp1.Bytes(), sp2.Bytes(), sp3.Bytes()
+			crc := i%2 == 0
+			enc := lzref.Encode
+			if crc {
+				enc = lzref.EncodeB2
+			}
+			c3 := enc(in3)
+			// history: plain decodes, some of them closed twice
+			for k := 0; k < 3; k++ {
+				c.refToLib("interleave-history:"+sp3.String(), in3, c3, crc, lzwork.Sources[k%len(lzwork.Sources)], lzwork.ReadPlan{Kind: "fixed", K: 4096})
+			}
+			// what a lone Writer makes of the two inputs (judged against the reference elsewhere in this check)
+			lone1, lone2 := lzwork.Compress(in1, crc, nil), lzwork.Compress(in2, crc, nil)
+			if !lone1.OK() || !lone2.OK() {
+				o.Inconclusive = append(o.Inconclusive, "interleave: lone compression failed (reported by the other kinds)")
+				continue
+			}
+			o.Evals++
+			out1, out2, dec3, rerr, cerr, pan, spun, abandoned := lzwork.Interleave(in1, in2, c3, crc, p.Seed+int64(i))
+			what := fmt.Sprintf("interleaved codecs: writers %s | %s, reader %s", sp1.String(), sp2.String(), sp3.String())
+			if spun {
+				o.Poisoned = true
+				o.Violate("interleaved:cpu-spin", "%s: the calls burnt %v of CPU time without returning: a codec call spins", what, lzwork.SpinCPU)
+				break
+			}
+			if abandoned {
+				o.Poisoned = true
+				o.Inconclusive = append(o.Inconclusive, what+": did not return within the wall-clock cap without burning CPU")
+				break
+			}
+			switch {
+			case pan != nil:
+				pan.Desc = what + ": " + pan.Desc
+				o.Violations = append(o.Violations, *pan)
+			case !bytes.Equal(out1, lone1.Out) || !bytes.Equal(out2, lone2.Out):
+				o.Violate("interleaved:stream-differs", "%s: a Writer that shared the process with other live codecs produced a stream that differs from the one a lone Writer produces for the same input", what)
+			case !decodesTo(out1, in1, crc) || !decodesTo(out2, in2, crc):
+				o.Violate("interleaved:not-decodable", "%s: the reference decoder does not get the input back from a stream written next to other live codecs", what)
+			case rerr != nil || cerr != nil || !bytes.Equal(dec3, in3):
+				o.Violate("interleaved:decode", "%s: the Reader that shared the process with live Writers failed on a canonical stream (read error %v, close %v, %d of %d bytes)", what, rerr, cerr, len(dec3), len(in3))
+			default:
+				o.Sig("interleave %s %s %s", sp1.String(), sp2.String(), sp3.String())
+			}
+			o.Count("interleaved_codec_triples", 1)
+		}
+		o.Sample = map[string]any{"kind": "interleave", "triples": p.N}
 	case "golden":
 		// streams made by the original tool chain (not by the reference encoder): the library must read them
 		var names []string
